@@ -157,7 +157,15 @@ def _value_classes(ctx, m):
             gn = _guard_of(ne, name)
             nb = body_wo_doc(ne)
             o_ne = ne.args.args[1].arg if len(ne.args.args) == 2 else 'other'
-            if gn is None and len(nb) == 1 and isinstance(nb[0], ast.Return) and norm(nb[0].value) in (
+            if gn is None and len(nb) == 1 and isinstance(nb[0], ast.Return) and norm(nb[0].value) == 'not self.__eq__(%s)' % o_ne \
+                    and guard_ret == 'NotImplemented':
+                ctx.violation('C19.D1', '%s::%s.__ne__' % (FD, name), norm(nb[0]),
+                              "%s(...) != 'text' is False although %s(...) == 'text' is False too: __eq__ answers NotImplemented "
+                              "for a foreign kind, and `not NotImplemented` is False (the direct call bypasses the operator "
+                              "protocol that `self == other` would go through)" % (name, name),
+                              '%s.__ne__ negates the raw result of __eq__, which may be NotImplemented' % name, file=FD,
+                              line=ne.lineno, engine='E9')
+            elif gn is None and len(nb) == 1 and isinstance(nb[0], ast.Return) and norm(nb[0].value) in (
                     'not self == %s' % o_ne, 'not self.__eq__(%s)' % o_ne):
                 ctx.ob('C19.D1', '%s.__ne__ is `not (self == other)`: the complement of __eq__ for every operand'
                        % name, True, '%s:%d' % (FD, ne.lineno))
